@@ -191,7 +191,12 @@ CHECKS = {
              "C13_gemm_general_position, C13_gemm_conj_output, C13_gemv_partial, C13_syrk_partial, C13_herk_partial, C13_trsm_partial: "
              "all nine trsm sites are right whenever their call is legal); C13_dot_selection_correct and marshalling theorems for "
              "axpy (and its += / -= forms), scal, copy, swap, asum, nrm2, iamax (0-based index of the first maximum; -1 when empty). "
-             "The full statement is refuted on the current tree by per-site witnesses (23 known findings: the gemm cluster, empty "
+             "The EXPRESSION layer is an expression language in Coq (Model/BlasC13Expr.v) whose compilation reuses the call "
+             "models: C13_decorations_compose (any sequence of blas::N/T/J/H, ~, unary *), C13_gemm_expr_sound / _partial (t"
+             "arget = | += nested scalings of gemm(s, a, b) | a * b with decorated operands into views, constructed arrays a"
+             "nd multi::array targets: the scalars multiply, beta is 0 / 1, nothing else changes), C13_gemm_scales_multiply,"
+             " C13_gemv_expr_sound, C13_axpy_expr_sound, C13_dot_expr_sound, C13_trsm_stmt_sound, C13_rk_nobeta_sound, C13_r"
+             "k_both_sound, C13_l1stmt_sound. The full statement is refuted on the current tree by per-site witnesses (23 known findings: the gemm cluster, empty "
              "inner dimension in gemv/dot, syrk k/ldc, unchecked strides in syrk/herk, herk conjugate triangle, degenerate leading "
              "dimensions). The dispatch ladders of gemm, gemv, syrk, herk and trsm are regenerated from the source on every run and "
              "proved equal to the modelled ones (C13_dispatch_regenerated, C13_level3_dispatch_regenerated); all models are compared, "
@@ -201,11 +206,11 @@ CHECKS = {
         design_ref="5/C13", technique="Coq proof (decidable criteria proved sound; case analysis over the regenerated dispatch "
                                       "ladders) + source-to-Coq translator for the gemm/gemv/syrk/herk/trsm ladders + BLAS symbol "
                                       "interposition differential (extracted model vs library) + direct numeric/frame monitors + "
-                                      "vm_compute cross-check of the extraction",
+                                      "vm_compute cross-check of the extraction + expression language with compilation to the call models (induction over expression trees and decoration lists), expression trees evaluated by the library's own operators",
         note="Reference BLAS semantics are Coq definitions (xTRSM: a relation); OpenBLAS is trusted to implement them (sampled by "
              "exact comparisons). gemm for complex<float> and trsm with both operands conjugated do not compile. Known findings are "
              "keyed on listed (routine, call site, kind) pairs and can only cover cases the proved criteria do not certify. "
-             "Coq 8.16.1 kernel; Print Assumptions recorded."),
+             "The expression theorems assume the ring laws they list; multi::array's own assignment branches are modelled and compared but not proved; spellings that do not compile at the pinned commit are listed in evidence not_exercised. Coq 8.16.1 kernel; Print Assumptions recorded."),
     "C20": dict(
         text="Theorems (Coq, all ranks/extents/index tuples/operation sequences/iterator traces): C20_asserts_silent_on_valid (a "
              "zero-based array taken through any sequence of in-domain view operations makes every transcribed BOOST_MULTI_ASSERT/"
